@@ -399,3 +399,14 @@ PROPS['C20'] = dict(
     assumptions=['PTX semantics as modelled in engine/ptx_sem.hpp', 'fully reduced configuration receives canonical operands (except multiplicands)'],
     explanation='Executes gl64_t.cuh source text under a PTX-subset model in 4 configurations; exhaustive comparison of 99 device table rows with the CPU tables.',
 )
+
+# ---- libFuzzer targets (coverage-guided supplements, byte-level input domains) -------------------------------------------
+CFGS['fuzz'] = dict(cxx='clang++', cflags='-std=gnu++17 -Wno-unused -fopenmp -O1 -g -mavx2 -fsanitize=fuzzer-no-link,address,undefined -fno-sanitize-recover=undefined',
+                    ldflags='-fopenmp -fsanitize=fuzzer,address,undefined', env=dict(ASAN_ENV, OMP_NUM_THREADS='2'))
+HARNESSES['fuzz_fromstring'] = dict(src='../fuzz/fuzz_fromstring.cpp', kind='fuzz', corpus='fuzz/corpus_fromstring')
+HARNESSES['fuzz_ntt_history'] = dict(src='../fuzz/fuzz_ntt_history.cpp', kind='fuzz', corpus='fuzz/corpus_history', deps=['engine/ref.hpp'])
+PROPS['C15']['jobs'].append(J('fuzz_fromstring', 'fuzz', 2_000_000, 80_000_000, wq=4, wt=16, max_len=120, tag='fuzz', class_prefix=''))
+PROPS['C19']['jobs'].append(J('fuzz_ntt_history', 'fuzz', 40_000, 6_000_000, wq=4, wt=16, max_len=96, tag='fuzz', class_prefix=''))
+PROPS['C15']['rule'] += (' Supplement: libFuzzer target fuzz_fromstring (bytes -> radix, text; GMP\'s own parser decides validity: valid integers must map to their floor residue through fromString and fromScalar and survive a toString round trip, '
+                         'invalid strings must raise std::invalid_argument; ASan+UBSan; -runs bound, fresh corpus + 5 seed inputs; only crash artifacts count).')
+PROPS['C19']['rule'] += (' Supplement: libFuzzer target fuzz_ntt_history (FuzzedDataProvider -> the same command grammar, state rebuilt per input, fresh-object and DFT/LDE oracle inside the target, ASan+UBSan).')
